@@ -11,7 +11,7 @@ the `String()` methods of `cond.go` / `pred_*.go`).
   grammar plus the semantic actions of `classListener` (value range checks, `net.ParseCIDR`
   masking, protocol names).
 * `lex : List Char → List Tok` and `render : List Tok → List Char` connect tokens and
-  text for the driver; the ANTLR lexer is tied to `lex` by T1 only (not proved).
+  text; the ANTLR lexer is tied to `lex` by T1.
 
 Core Lean only.
 -/
@@ -237,7 +237,13 @@ def wfAll : List Cond → Bool
   | c :: cs => c.wf && wfAll cs
 end
 
-/-! ### text ↔ tokens (driver side; the real lexer is tied to this by T1) -/
+/-! ### text ↔ tokens
+
+`lex` mirrors the ANTLR lexer of the grammar (maximal munch; the first rule wins among equally
+long matches; characters that start no token are skipped, as the lexer's error recovery does —
+the lexer's error listener is not consulted by `BuildClassTree`).  The real lexer is tied to
+`lex` by T1 on every generated input; `lex (render (print e)) = print e` is a theorem
+(`Scion.Proofs.PktclsLex`). -/
 
 def digitVal (c : Char) : Option Nat :=
   let n := c.toNat
@@ -254,112 +260,149 @@ def decValue (cs : List Char) : Nat := cs.foldl (fun acc c => acc * 10 + (c.toNa
 
 /-- longest prefix matching `DIGITS` (`'0' | [1-9][0-9]*`) -/
 def takeDigits : List Char → Option (List Char × List Char)
-  | '0' :: r => some (['0'], r)
-  | c :: r => if isDec c then some (c :: r.takeWhile isDec, r.dropWhile isDec) else none
   | [] => none
+  | c :: r =>
+    if c = '0' then some (['0'], r)
+    else if isDec c then some (c :: r.takeWhile isDec, r.dropWhile isDec)
+    else none
+
+/-- the separator expected after a `DIGITS` inside `NET` -/
+def expect (ch : Char) : List Char → Option (List Char)
+  | [] => none
+  | c :: r => if c = ch then some r else none
 
 /-- longest prefix matching `NET` -/
-def takeNet (cs : List Char) : Option (Tok × List Char) := do
-  let (a, r) ← takeDigits cs
-  let r ← match r with | '.' :: r => some r | _ => none
-  let (b, r) ← takeDigits r
-  let r ← match r with | '.' :: r => some r | _ => none
-  let (c, r) ← takeDigits r
-  let r ← match r with | '.' :: r => some r | _ => none
-  let (d, r) ← takeDigits r
-  let r ← match r with | '/' :: r => some r | _ => none
-  let (m, r) ← takeDigits r
-  pure (.net (decValue a) (decValue b) (decValue c) (decValue d) (decValue m), r)
+def takeNet (cs : List Char) : Option (Tok × List Char) :=
+  match takeDigits cs with
+  | none => none
+  | some (a, r) =>
+    match expect '.' r with
+    | none => none
+    | some r =>
+      match takeDigits r with
+      | none => none
+      | some (b, r) =>
+        match expect '.' r with
+        | none => none
+        | some r =>
+          match takeDigits r with
+          | none => none
+          | some (c, r) =>
+            match expect '.' r with
+            | none => none
+            | some r =>
+              match takeDigits r with
+              | none => none
+              | some (d, r) =>
+                match expect '/' r with
+                | none => none
+                | some r =>
+                  match takeDigits r with
+                  | none => none
+                  | some (m, r) =>
+                    some (.net (decValue a) (decValue b) (decValue c) (decValue d) (decValue m), r)
+
+/-- spellings of the keyword tokens (and of the literals `true` / `false`) -/
+def kwTable : List (List Char × Tok) :=
+  [ (['A','N','Y'], .kAny), (['a','n','y'], .kAny),
+    (['A','L','L'], .kAll), (['a','l','l'], .kAll),
+    (['N','O','T'], .kNot), (['n','o','t'], .kNot),
+    (['B','O','O','L'], .kBool), (['b','o','o','l'], .kBool),
+    (['S','R','C'], .kSrc), (['s','r','c'], .kSrc),
+    (['D','S','T'], .kDst), (['d','s','t'], .kDst),
+    (['D','S','C','P'], .kDscp), (['d','s','c','p'], .kDscp),
+    (['T','O','S'], .kTos), (['t','o','s'], .kTos),
+    (['P','R','O','T','O','C','O','L'], .kProtocol), (['p','r','o','t','o','c','o','l'], .kProtocol),
+    (['S','R','C','P','O','R','T'], .kSrcport), (['s','r','c','p','o','r','t'], .kSrcport),
+    (['D','S','T','P','O','R','T'], .kDstport), (['d','s','t','p','o','r','t'], .kDstport),
+    (['t','r','u','e'], .tTrue), (['f','a','l','s','e'], .tFalse) ]
 
 def keyword (w : List Char) : Option Tok :=
-  let s := String.ofList w
-  if s == "ANY" || s == "any" then some .kAny
-  else if s == "ALL" || s == "all" then some .kAll
-  else if s == "NOT" || s == "not" then some .kNot
-  else if s == "BOOL" || s == "bool" then some .kBool
-  else if s == "SRC" || s == "src" then some .kSrc
-  else if s == "DST" || s == "dst" then some .kDst
-  else if s == "DSCP" || s == "dscp" then some .kDscp
-  else if s == "TOS" || s == "tos" then some .kTos
-  else if s == "PROTOCOL" || s == "protocol" then some .kProtocol
-  else if s == "SRCPORT" || s == "srcport" then some .kSrcport
-  else if s == "DSTPORT" || s == "dstport" then some .kDstport
-  else if s == "true" then some .tTrue
-  else if s == "false" then some .tFalse
-  else none
+  match kwTable.find? (fun e => e.1 == w) with
+  | some e => some e.2
+  | none => none
 
-def startsWith (p : List Char) (cs : List Char) : Option (List Char) :=
-  if cs.take p.length == p then some (cs.drop p.length) else none
+/-- the literal (implicit) tokens of the grammar -/
+def litTok : List Char → Option (Tok × List Char)
+  | [] => none
+  | c :: r =>
+    if c = 'c' then
+      (match r with
+        | c1 :: c2 :: c3 :: r' => if c1 = 'l' ∧ c2 = 's' ∧ c3 = '=' then some (.clsEq, r') else none
+        | _ => none)
+    else if c = '=' then
+      (match r with
+        | c1 :: c2 :: r' => if c1 = '0' ∧ c2 = 'x' then some (.eq0x, r') else some (.eq, r)
+        | _ => some (.eq, r))
+    else if c = '(' then some (.lpar, r)
+    else if c = ')' then some (.rpar, r)
+    else if c = ',' then some (.comma, r)
+    else if c = '-' then some (.dash, r)
+    else none
 
-/-- maximal-munch lexer of the grammar (first rule wins among equally long matches).
-Characters that start no token are skipped, as the ANTLR lexer's error recovery does (the
-lexer's error listener is not consulted by `BuildClassTree`). -/
+/-- `DIGITS`, `HEX_DIGITS`, keywords and `STRING`: the longest of the runs decides, the rule listed
+first in the grammar wins a tie (`DIGITS` < `HEX_DIGITS` < keywords < `STRING`; literals such as
+`true` precede all of them) -/
+def wordTok (cs : List Char) : Option (Tok × List Char) :=
+  let hexRun := cs.takeWhile isHexC
+  let alphaRun := cs.takeWhile isLetter
+  let digLen := match takeDigits cs with | some (d, _) => d.length | none => 0
+  if max hexRun.length alphaRun.length = 0 ∧ digLen = 0 then none
+  else if alphaRun.length > hexRun.length ∨
+      (alphaRun.length = hexRun.length ∧ (keyword alphaRun).isSome) then
+    match keyword alphaRun with
+    | some t => some (t, cs.drop alphaRun.length)
+    | none => some (.str alphaRun, cs.drop alphaRun.length)
+  else if digLen ≥ hexRun.length then
+    match takeDigits cs with
+    | some (d, r') => some (.digits (decValue d), r')
+    | none => none
+  else some (.hexd (hexRun.filterMap digitVal), cs.drop hexRun.length)
+
+/-- the next token: literal, else `NET`, else a word -/
+def nextTok (cs : List Char) : Option (Tok × List Char) :=
+  match litTok cs with
+  | some x => some x
+  | none =>
+    match takeNet cs with
+    | some x => some x
+    | none => wordTok cs
+
 def lexF : Nat → List Char → List Tok
   | 0, _ => []
   | _, [] => []
   | f + 1, c :: r =>
-    let cs := c :: r
     if isWs c then lexF f r
     else
-      -- candidates with their consumed length
-      let netC : Option (Tok × List Char) := takeNet cs
-      let hexRun := cs.takeWhile isHexC
-      let alphaRun := cs.takeWhile isLetter
-      let digC := takeDigits cs
-      -- literal tokens
-      let lit : Option (Tok × List Char) :=
-        match startsWith ['c','l','s','='] cs with
-        | some r' => some (.clsEq, r')
-        | none =>
-          match startsWith ['=','0','x'] cs with
-          | some r' => some (.eq0x, r')
-          | none =>
-            if c == '=' then some (.eq, r)
-            else if c == '(' then some (.lpar, r)
-            else if c == ')' then some (.rpar, r)
-            else if c == ',' then some (.comma, r)
-            else if c == '-' then some (.dash, r)
-            else none
-      match lit with
-      | some (t, r') =>
-        -- literal tokens: `cls=` is longer than the word `cls` and `=` ends every word rule
-        t :: lexF f r'
-      | none =>
-        match netC with
-        | some (t, r') => t :: lexF f r'
-        | none =>
-          let wordLen := max hexRun.length alphaRun.length
-          let digLen := match digC with | some (d, _) => d.length | none => 0
-          if wordLen = 0 ∧ digLen = 0 then lexF f r
-          else if alphaRun.length > hexRun.length ∨
-              (alphaRun.length = hexRun.length ∧ (keyword alphaRun).isSome) then
-            -- keyword or STRING (a keyword never has the same length as the HEX_DIGITS run: no
-            -- keyword consists of hex letters only)
-            match keyword alphaRun with
-            | some t => t :: lexF f (cs.drop alphaRun.length)
-            | none => .str alphaRun :: lexF f (cs.drop alphaRun.length)
-          else if digLen ≥ hexRun.length then
-            match digC with
-            | some (d, r') => .digits (decValue d) :: lexF f r'
-            | none => lexF f r
-          else
-            .hexd (hexRun.filterMap digitVal) :: lexF f (cs.drop hexRun.length)
+      match nextTok (c :: r) with
+      | some (t, r') => t :: lexF f r'
+      | none => lexF f r
 
 def lex (cs : List Char) : List Tok := lexF (cs.length + 1) cs
 
-def hexChar (d : Nat) : Char := if d < 10 then Char.ofNat (48 + d) else Char.ofNat (87 + d)
+def digitChar (d : Nat) : Char := Char.ofNat (48 + d)
+
+def hexChar (d : Nat) : Char := if d < 10 then digitChar d else Char.ofNat (87 + d)
+
+/-- the decimal numeral of `n` (`%d`) -/
+def decDigits (n : Nat) : List Char :=
+  if n < 10 then [digitChar n] else decDigits (n / 10) ++ [digitChar (n % 10)]
+termination_by n
+decreasing_by omega
 
 def renderTok : Tok → List Char
-  | .kAny => "any".toList | .kAll => "all".toList | .kNot => "not".toList
-  | .kBool => "BOOL".toList | .kSrc => "src".toList | .kDst => "dst".toList
-  | .kDscp => "dscp".toList | .kTos => "tos".toList | .kProtocol => "protocol".toList
-  | .kSrcport => "srcport".toList | .kDstport => "dstport".toList
-  | .eq => ['='] | .eq0x => "=0x".toList | .clsEq => "cls=".toList
+  | .kAny => ['a','n','y'] | .kAll => ['a','l','l'] | .kNot => ['n','o','t']
+  | .kBool => ['B','O','O','L'] | .kSrc => ['s','r','c'] | .kDst => ['d','s','t']
+  | .kDscp => ['d','s','c','p'] | .kTos => ['t','o','s']
+  | .kProtocol => ['p','r','o','t','o','c','o','l']
+  | .kSrcport => ['s','r','c','p','o','r','t'] | .kDstport => ['d','s','t','p','o','r','t']
+  | .eq => ['='] | .eq0x => ['=','0','x'] | .clsEq => ['c','l','s','=']
   | .lpar => ['('] | .rpar => [')'] | .comma => [','] | .dash => ['-']
-  | .tTrue => "true".toList | .tFalse => "false".toList
-  | .digits n => (toString n).toList
+  | .tTrue => ['t','r','u','e'] | .tFalse => ['f','a','l','s','e']
+  | .digits n => decDigits n
   | .hexd ds => ds.map hexChar
-  | .net a b c d m => s!"{a}.{b}.{c}.{d}/{m}".toList
+  | .net a b c d m =>
+    decDigits a ++ '.' :: (decDigits b ++ '.' :: (decDigits c ++ '.' :: (decDigits d ++ '/' :: decDigits m)))
   | .str s => s
 
 /-- the text `String()` produces for the printed token list -/
